@@ -1,34 +1,39 @@
 /-
 CRC-32C (Castagnoli, reflected polynomial 0x82F63B78) as used for the content file
-(cmdline/util.h crc32c_*).  Core Lean only.
+(cmdline/util.h crc32c_*), in its defining bit-serial form.  Core Lean only.
+The table / slicing-by-4 / SSE4.2 forms of the C code compute the same function: that is
+checked against this definition by the leaf harness (both variants) and, for the tables, by a
+per-run kernel obligation.
 -/
 namespace SnapraidVerif.Codec
 
+abbrev W := BitVec 32
+
+def crcPoly : W := 0x82F63B78#32
+
 /-- one bit step of the reflected CRC -/
-def crcBit (c : UInt32) : UInt32 := if c &&& 1 = 1 then (c >>> 1) ^^^ 0x82F63B78 else c >>> 1
+def crcBit (c : W) : W := if c.getLsbD 0 then (c >>> 1) ^^^ crcPoly else c >>> 1
 
-/-- table entry `CRC32C_0[x]` by definition: 8 bit steps of `x` -/
-def crcTab (x : UInt32) : UInt32 := crcBit (crcBit (crcBit (crcBit (crcBit (crcBit (crcBit (crcBit x)))))))
+/-- 8 bit steps; `crcTab x` for `x < 256` is the table entry `CRC32C_0[x]` -/
+def crcTab (x : W) : W := crcBit (crcBit (crcBit (crcBit (crcBit (crcBit (crcBit (crcBit x)))))))
 
-/-- `crc32c_plain_char`: `T[(crc ^ c) & 0xff] ^ (crc >> 8)` -/
-def crcStep (crc : UInt32) (b : UInt8) : UInt32 :=
-  crcTab ((crc ^^^ b.toUInt32) &&& 0xff) ^^^ (crc >>> 8)
+/-- one input byte: xor into the low byte, then 8 bit steps
+    (equal to `CRC32C_0[(crc ^ c) & 0xff] ^ (crc >> 8)` of crc32c_plain_char) -/
+def crcStep (crc : W) (b : UInt8) : W := crcTab (crc ^^^ BitVec.ofNat 32 b.toNat)
 
-/-- `crc32c_gen_plain` on a byte list (the 4-byte slicing of the C code computes the same
-    function; that equality is checked by the leaf harness, both CRC variants) -/
-def crcPlain (crc : UInt32) (l : List UInt8) : UInt32 := l.foldl crcStep crc
+def crcPlain (crc : W) (l : List UInt8) : W := l.foldl crcStep crc
 
 /-- `crc32c(crc, ptr, size)`: xor with the IV before and after -/
-def crc32c (crc : UInt32) (l : List UInt8) : UInt32 := crcPlain (crc ^^^ 0xffffffff) l ^^^ 0xffffffff
+def crc32c (crc : W) (l : List UInt8) : W := crcPlain (crc ^^^ 0xffffffff#32) l ^^^ 0xffffffff#32
 
-theorem crcPlain_append (c : UInt32) (a b : List UInt8) : crcPlain c (a ++ b) = crcPlain (crcPlain c a) b := by
+theorem crcPlain_append (c : W) (a b : List UInt8) : crcPlain c (a ++ b) = crcPlain (crcPlain c a) b := by
   simp [crcPlain, List.foldl_append]
 
 /-- chaining: `crc32c(crc32c(c, a), b) = crc32c(c, a ++ b)` (how the stream accumulates it) -/
-theorem crc32c_append (c : UInt32) (a b : List UInt8) : crc32c (crc32c c a) b = crc32c c (a ++ b) := by
+theorem crc32c_append (c : W) (a b : List UInt8) : crc32c (crc32c c a) b = crc32c c (a ++ b) := by
   unfold crc32c
   rw [crcPlain_append]
   congr 2
-  rw [UInt32.xor_assoc]; simp
+  rw [BitVec.xor_assoc]; simp
 
 end SnapraidVerif.Codec
